@@ -19,7 +19,7 @@
 From Coq Require Import List ZArith Bool.
 From SVC Require Import Base.AMap Base.Res Base.Dec Model.Types Model.Pricing
   Model.Handlers Model.EndBlock Model.Step Proofs.Inv Proofs.TraceLemmas Proofs.TraceSettle
-  Proofs.TraceMoney Proofs.DecProofs Proofs.StepSpecs_deposit Proofs.GapC02 Proofs.GapC02b Proofs.GapC02c.
+  Proofs.TraceMoney Proofs.DecProofs Proofs.StepSpecs_deposit Proofs.GapC02 Proofs.GapC02b Proofs.GapC02c Proofs.GapC02d.
 Import ListNotations.
 Open Scope Z_scope.
 
@@ -276,3 +276,13 @@ Theorem C02_expire_only_at_expiry : forall cfg s o s' d r,
   /\ exists q, get r (reqs s) = Some q /\ r_active q = true /\ r_exp q = height s.
 Proof. exact GapC02c.expire_only_at_expiry. Qed.
 Print Assumptions C02_expire_only_at_expiry.
+
+(* trace-level converse of the debit (C02_debit_matches_issue is the other direction): in every
+   reachable state a request issued with a positive fee -- i.e. outside super mode,
+   C02_stored_issued -- lies in a batch that was paid for: the log contains a debit of its
+   context, charged to the consumer named in the issue event, of at least its fee *)
+Theorem C02_issue_has_debit : forall cfg s r p cons f,
+  wf_cfg cfg -> Reach cfg s -> In (EvIssue r p cons f) (log s) -> 0 < f ->
+  exists amt, In (EvDebit (rid_ctx r) cons amt) (log s) /\ f <= amt.
+Proof. exact GapC02d.issue_has_debit. Qed.
+Print Assumptions C02_issue_has_debit.
